@@ -108,7 +108,7 @@ theorem read_lt {m : Walk.Mem} {a w v : Nat} (h : m.read a w = some v) (hw : w â
   Â· simp only at h
     split at h
     Â· cases h
-      calc m.leAt (a - m.base) w < 256 ^ w := leAt_lt m w _
+      calc m.wordAt (a - m.base) w < 256 ^ w := Walk.Mem.wordAt_lt m _ w
         _ â‰¤ 256 ^ 8 := Nat.pow_le_pow_right (by omega) hw
         _ = 2 ^ 64 := by decide
     Â· cases h
